@@ -688,7 +688,7 @@ fn asn_set_symmetric_difference_3x3() { setop_full_body::<3>(Op::Sym); }
 #[kani::unwind(9)]
 fn asn_set_symmetric_difference_t() { setop_body::<3>(Op::Sym); }
 
-/// @tier thorough
+/// @tier off
 /// @fn rpki::resources::asn::SmallAsnSet::from_iter rpki::resources::asn::SmallAsnSet::union
 ///   rpki::resources::asn::SmallAsnSet::difference
 /// @bounds two collected sets from multisets of exactly 2 arbitrary u32
